@@ -1,6 +1,7 @@
 package main
 
 import (
+	"go/token"
 	"fmt"
 	"go/types"
 	"os"
@@ -223,6 +224,21 @@ func c09Discharge(c *Ctx, ff *FuncFacts, s PanicSite, via map[*ssa.Function][]st
 	case *ssa.Index:
 		return dischargeIndex(ff, x.Block(), x.X, x.Index)
 	case *ssa.Lookup:
+		if s.Kind == "nilentry" {
+			if _, isC := x.Index.(*ssa.Const); isC {
+				return Discharge{true, "constant key: presence does not depend on input", ""}
+			}
+			mt, kt := ff.Term(x.X).String(), ff.Term(x.Index).String()
+			for _, f := range ff.FactsAt(x.Block()) {
+				if !f.IsCmp && f.Truth && f.B != nil && f.B.Op == "extract" && f.B.Sym == "#1" && len(f.B.Args) == 1 && f.B.Args[0].Op == "lookup" && len(f.B.Args[0].Args) == 2 && f.B.Args[0].Args[0].String() == mt && f.B.Args[0].Args[1].String() == kt {
+					return Discharge{true, "dominating presence test " + f.String(), ""}
+				}
+				if f.IsCmp && f.Op == token.NEQ && ((f.L.Op == "lookup" && f.R.Sym == "nil" && f.L.Args[0].String() == mt && f.L.Args[1].String() == kt) || (f.R.Op == "lookup" && f.L.Sym == "nil" && f.R.Args[0].String() == mt && f.R.Args[1].String() == kt)) {
+					return Discharge{true, "dominating nil test " + f.String(), ""}
+				}
+			}
+			return Discharge{false, "", "the key " + kt + " may be absent from " + mt}
+		}
 		return dischargeIndex(ff, x.Block(), x.X, x.Index)
 	case *ssa.Slice:
 		return dischargeSlice(ff, x)
